@@ -87,26 +87,44 @@ Definition wellformed (s : string) : bool := match unescape s with Some _ => tru
 Definition equiv_paths (a b : string) : bool :=
   wellformed a && wellformed b && String.eqb (norm a) (norm b).
 
+(** the raw values a path expression captures from the segments of a path, position
+    by position (literals are not compared here): a wildcard takes the segment at
+    its position, a free wildcard the rest of the path *)
+Fixpoint route_caps (pat : list seg) (segs : list string) : option caps :=
+  match pat, segs with
+  | [], [] => Some []
+  | Lit _ :: p, _ :: r => route_caps p r
+  | Wild n :: p, s :: r => option_map (cons (n, s)) (route_caps p r)
+  | [CatchAll n], _ :: _ => Some [(n, join_with "/" segs)]
+  | _, _ => None
+  end.
+
+(** what a captured raw value must look like in the pipeline, per setting *)
+Definition spec_capture (st : setting) (v : string) : string :=
+  match st with NoDecode => decode_keep_slash v | _ => unescape_or_empty v end.
+
 (** * guards of the findings *)
 
 (** C08-F1: the lookup compares literal segments of the path expressions with
-    the still-encoded segments of the request.  [lit_agree] says that, position
-    by position, every literal segment of a path expression compares alike with
-    the two spellings. *)
-Fixpoint lit_agree (pat : list seg) (segs segs' : list string) : bool :=
-  match pat, segs, segs' with
-  | Lit l :: p, s :: r, s' :: r' => Bool.eqb (String.eqb l s) (String.eqb l s') && lit_agree p r r'
-  | Wild _ :: p, _ :: r, _ :: r' => lit_agree p r r'
-  | _, _, _ => true
+    the still-encoded segments of the request.  [rmatch pat segs]: the path
+    expression matches the segments as they are spelled (literals byte for byte,
+    a wildcard takes one non-empty segment, a free wildcard the non-empty rest). *)
+Fixpoint rmatch (pat : list seg) (segs : list string) : bool :=
+  match pat, segs with
+  | [], [] => true
+  | Lit l :: p, s :: r => String.eqb l s && rmatch p r
+  | Wild _ :: p, s :: r => negb (is_empty s) && rmatch p r
+  | [CatchAll _], _ :: _ => negb (is_empty (join_with "/" segs))
+  | _, _ => false
   end.
 
 Definition segs_of (p : string) : list string :=
   match path_segs p with Some l => l | None => [] end.
 
-(** C08-F1: some literal segment of a path expression compares differently with
-    the two spellings of the request path *)
+(** C08-F1: some path expression matches one spelling of the request path and not the other *)
 Definition guard_F1 (rules : list rule) (p p' : string) : bool :=
-  existsb (fun r => existsb (fun t => negb (lit_agree (rt_pat t) (segs_of p) (segs_of p'))) (r_routes r)) rules.
+  existsb (fun r => existsb (fun t => negb (Bool.eqb (rmatch (rt_pat t) (segs_of p)) (rmatch (rt_pat t) (segs_of p'))))
+                            (r_routes r)) rules.
 
 (** C08-F2: a lower-case %2f *)
 Definition guard_F2 (p p' : string) : bool := contains "%2f" p || contains "%2f" p'.
